@@ -79,6 +79,10 @@ def raised(d: dict) -> bool:
 
 def replay_special(rc: dict, prefix: str, judge: Optional[Callable[[dict], bool]] = None) -> Optional[int]:
     """Replay of the two special case shapes; None when rc is an ordinary case."""
+    if rc.get("scribble"):
+        v, n = scribble_violation(prefix)
+        print("property violated: " + v["what"] if v else f"property holds on {n} histories in which the caller edits its results")
+        return 1 if v else 0
     if rc.get("odd_equality"):
         v = odd_equality_violation(prefix)
         print("property violated: " + v["what"] if v else "property holds for values with unusual equality")
@@ -165,3 +169,137 @@ def odd_equality_violation(prefix: str) -> Optional[dict]:
                                 "what": f"{name} ({shape}, {mode}) given {val!r}: the error is not about that object and this validator: {r!r}",
                                 "replay_case": {"odd_equality": True}}
     return None
+
+
+# ------------------------------------------------------------------ a caller that edits the results it was handed
+def scribble(r: Any, depth: int = 0) -> None:
+    """What a caller may do with a result it owns: edit, in place, the containers the library built for it - the list
+    of failing predicates, the per-key / per-index / per-variant error tables, the set of expected keys, a payload
+    list / dict / set. (Renderers that tidy an error tree before showing it do exactly this.)"""
+    from koda_validate import Invalid, Valid
+    from koda_validate import errors as KE
+    if depth > 30:
+        return
+    if type(r) is Valid:
+        p = r.val
+        if type(p) is list:
+            p.append("<edited>")
+        elif type(p) is dict:
+            p["<edited>"] = True
+        elif type(p) is set:
+            p.add("<edited>")
+        return
+    if type(r) is not Invalid:
+        return
+    e = r.err_type
+    if type(e) is KE.PredicateErrs and type(e.predicates) is list:
+        e.predicates.reverse()
+        if e.predicates:
+            e.predicates.pop()
+        e.predicates.append("<edited>")
+    elif type(e) is KE.ExtraKeysErr and isinstance(e.expected_keys, set):
+        e.expected_keys.clear()
+    else:
+        kids = []
+        for attr in ("keys", "indexes"):
+            d = getattr(e, attr, None)
+            if type(d) is dict:
+                for k in list(d.values()):
+                    kids += [k] if type(k) is Invalid else [x for x in (getattr(k, "key", None), getattr(k, "val", None)) if x is not None]
+                d.clear()
+        for attr in ("variants", "item_errs"):
+            l = getattr(e, attr, None)
+            if type(l) is list:
+                kids += list(l)
+                del l[:]
+        ch = getattr(e, "child", None)
+        if type(ch) is Invalid:
+            kids.append(ch)
+        for k in kids:
+            scribble(k, depth + 1)
+
+
+def _has_extra_keys_err(r: Any, depth: int = 0) -> bool:
+    from koda_validate import Invalid
+    from koda_validate import errors as KE
+    if type(r) is not Invalid or depth > 30:
+        return False
+    e = r.err_type
+    if type(e) is KE.ExtraKeysErr:
+        return True
+    kids = []
+    for attr in ("keys", "indexes"):
+        d = getattr(e, attr, None)
+        if type(d) is dict:
+            for k in d.values():
+                kids += [k] if type(k) is Invalid else [x for x in (getattr(k, "key", None), getattr(k, "val", None)) if x is not None]
+    for attr in ("variants", "item_errs"):
+        kids += list(getattr(e, attr, None) or [])
+    if type(getattr(e, "child", None)) is Invalid:
+        kids.append(e.child)
+    return any(_has_extra_keys_err(k, depth + 1) for k in kids)
+
+
+SCRIBBLE_TREES = None
+
+
+def scribble_trees():
+    from ..lang import N, P, Some
+    S_, I_ = G.S, G.I
+    INT = ("Scalar", ("KInt",), None, [], [], [])
+    ALLFAIL = ("Scalar", ("KInt",), None, [], [("PMin", I_(5), False), ("PMax", I_(1), False)], [])
+    ALLFAIL_A = ("Scalar", ("KInt",), None, [], [("PMin", I_(5), False), ("PMax", I_(1), False)], [("APred", N(1))])
+    STRP = ("Scalar", ("KStr",), None, [("Strip",)], [("PNotBlank",), ("PMaxLength", 3)], [])
+    rec_in = [("VDict", [P(S_("a"), I_(1)), P(S_("zz"), I_(2))]), ("VDict", [P(S_("a"), I_(1)), P(S_("b"), I_(2))]),
+              ("VDict", [P(S_("a"), S_("no"))]), ("VDict", [P(S_("a"), I_(3))]), ("VDict", [P(S_("zz"), I_(2))])]
+    return [
+        (ALLFAIL, [I_(3), I_(3), I_(7), I_(0), S_("x")]), (ALLFAIL_A, [I_(3), I_(3), I_(7)]), (STRP, [S_("  "), S_(" abcd "), S_("  "), S_("a")]),
+        (("ListV", ALLFAIL, [("PMinItems", 3), ("PMaxItems", 0)], [], None), [("VList", [I_(3)]), ("VList", [I_(3)]), ("VList", [I_(3), I_(3), I_(3)])]),
+        (("UnionV", [ALLFAIL, STRP]), [I_(3), S_("  "), I_(3), G.NONE]),
+        (("DictAnyV", [P(S_("a"), INT), P(S_("b"), ("KeyNotRequired", INT))], None, None, True), rec_in),
+        (("RecordV", [P(S_("a"), INT), P(S_("b"), ("KeyNotRequired", INT))], N(2), None, None, True), rec_in),
+        (("ClassV", ("RkData",), N(G.C_DATA), [P(S_("a"), P(INT, True)), P(S_("b"), P(INT, False))], None, None, True, None), rec_in),
+        (("ClassV", ("RkTyped",), N(G.C_TYPED), [P(S_("k"), P(INT, True)), P(S_("o"), P(INT, False))], None, None, True, None),
+         [("VDict", [P(S_("k"), I_(1)), P(S_("zz"), I_(2))]), ("VDict", [P(S_("k"), I_(1)), P(S_("o"), I_(2))]), ("VDict", [P(S_("k"), I_(3))])]),
+        (("ClassV", ("RkNamed",), N(G.C_NAMED), [P(S_("x"), P(INT, True)), P(S_("y"), P(INT, False))], None, None, True, None),
+         [("VDict", [P(S_("x"), I_(1)), P(S_("zz"), I_(2))]), ("VDict", [P(S_("x"), I_(1)), P(S_("y"), I_(2))]), ("VDict", [P(S_("x"), I_(3))])]),
+        (("MapV", STRP, ALLFAIL, [("PMinKeys", 2)], [], None), [("VDict", [P(S_(" k "), I_(3))]), ("VDict", [P(S_(" k "), I_(3)), P(S_("  "), I_(3))]), ("VDict", [])]),
+    ]
+
+
+def scribble_violation(prefix: str, limit: int = 400) -> Tuple[Optional[dict], int]:
+    """Histories on one instance in which the caller edits every result in place before the next call: each call
+    still returns what a fresh instance returns. (Calls whose result holds an ExtraKeysErr are used to edit, but not
+    compared once an earlier ExtraKeysErr has been edited: that error object is one per validator, by design.)"""
+    import itertools
+    n = 0
+    for vt, alpha in scribble_trees():
+        seqs = [list(s) for k in (2, 3) for s in itertools.product(alpha, repeat=k)]
+        for xs in seqs[:limit]:
+            for modes in (("sync",) * len(xs), ("async",) * len(xs), tuple("sync" if i % 2 == 0 else "async" for i in range(len(xs)))):
+                n += 1
+                try:
+                    ctx = Ctx(G.STD_CLASSES, [])
+                    v = ctx.validator(vt)
+                except HarnessError:
+                    continue
+                edited_extra = False
+                for i, (mode, xt) in enumerate(zip(modes, xs)):
+                    x = to_py(xt, ctx.ct)
+                    try:
+                        r = v(x) if mode == "sync" else drive(v.validate_async(x))
+                    except Exception as e:  # noqa
+                        r = e
+                    actx, alone = _alone(vt, [], xt, mode)
+                    # once an ExtraKeysErr has been edited, two results that both hold one are not compared (the edited
+                    # object is handed out again); one that holds it against one that does not is a difference
+                    skip = edited_extra and _has_extra_keys_err(r) and _has_extra_keys_err(alone)
+                    if not skip and not _same(ctx, r, actx, alone):
+                        kind = "raised" if isinstance(r, Exception) else "returned"
+                        return ({"kind": "oracle", "signature": f"{prefix}:edited-results",
+                                 "what": f"call {i} ({mode}, {x!r}) {kind} {r!r} on an instance whose {i} earlier results the caller had edited in place; "
+                                         f"a fresh instance gives {alone!r}",
+                                 "replay_case": {"scribble": True}}, n)
+                    edited_extra = edited_extra or _has_extra_keys_err(r)
+                    scribble(r)
+    return None, n
